@@ -20,7 +20,7 @@ CLAIMED = {
             "Not proved: the volume (triple) version of the tensor theorem and the agreement of the object layer's entry points (both covered by correspondence + exact oracle). "
             "Known finding F-01 (sample size under normalize_kv=False) is reported as KNOWN-FINDING."),
     'C04': ("7/C04",
-            "Lean theorem insert_preserves_curve_point: for every degree, sorted knot vector, control polygon of any dimension (homogeneous points for rational curves), "
+            "Lean theorems insert_preserves_curve (function level: spans found by the library's linear search before and after, EVERY parameter of the domain incl. both ends), insert_sequence_preserves (ANY sequence of admissible insertions, by induction over the request list, well-formedness preserved) and insert_preserves_curve_point: for every degree, sorted knot vector, control polygon of any dimension (homogeneous points for rational curves), "
             "insertion parameter with any prior multiplicity s, any count r with r+s<=p, and EVERY evaluation parameter, the point computed by A2.2/A3.1 from the model of "
             "helpers.knot_insertion / knot_insertion_kv equals the original point (polar-form refinement theorem, no bound on anything); plus: knot vector gains exactly r "
             "copies (multiset), stays sorted, net grows by r, over-multiplicity requests are rejected. The model (including the per-direction gather/scatter for surfaces "
@@ -32,7 +32,7 @@ CLAIMED = {
             "bisects every interval (length 2n-1, even entries = old knots, odd entries = midpoints strictly between), X has p - s copies per knot, refinement = fold of "
             "insertions, result sizes grow by |X|. That the code's A5.4 returns exactly these control points and knots is checked by exact correspondence through "
             "operations.refine_knotvector on curves, surfaces and volumes (all direction subsets, densities 1..2).",
-            "Not proved: the composition of the per-insertion preservation theorem over the whole list X as one statement; A5.4's loops themselves are not modelled (spec-level model)."),
+            "refine_preserves_curve is proved for curves (fold of insertions, every parameter, under the per-knot admissibility predicate RefineOk); the lifting to surfaces / volumes and the discharge of RefineOk for the generated list X from sortedness + tolerance separation are not proved; A5.4's loops themselves are not modelled (spec-level model)."),
     'C06': ("7/C06",
             "Lean theorems: removing r knots at the position where r copies were inserted restores the knot vector; sizes. The model knotRemoval mirrors A5.8 as coded after "
             "the repair of defect F-06 (fix: commit in /repo; the check reported the violation with a replay on the pinned tree first) and is tied to operations.remove_knot / "
